@@ -91,9 +91,11 @@ theorem IndState.calculateIndex_local (s s' : IndState F) (start : Int) (end_ : 
   cases h
   exact ⟨rfl, rfl, calculateIndex_writes_only _ _ _ _ _ _ h1⟩
 
+omit [PyF F] in
 theorem IndState.purge_local (s : IndState F) : IndState.Local s s.purge :=
   ⟨rfl, rfl, purgeNames_agree _ _⟩
 
+omit [PyF F] in
 theorem IndState.Local.trans {s s' s'' : IndState F} (h1 : IndState.Local s s') (h2 : IndState.Local s' s'') :
     IndState.Local s s'' :=
   ⟨h2.tree.trans h1.tree, h2.cfg.trans h1.cfg, h1.agree.trans (h1.tree ▸ h2.agree)⟩
